@@ -296,6 +296,9 @@ func originMatchesHost(c fiber.Ctx, trustedOrigins []string, trustedSubOrigins [
 		return nil
 	}
 
+	// only scheme and host take part in the comparison with the trusted origins
+	origin = originURL.Scheme + "://" + originURL.Host
+
 	for _, trustedOrigin := range trustedOrigins {
 		if origin == trustedOrigin {
 			return nil
@@ -329,7 +332,8 @@ func refererMatchesHost(c fiber.Ctx, trustedOrigins []string, trustedSubOrigins 
 		return nil
 	}
 
-	referer = refererURL.String()
+	// only the origin of the referer is compared, never its path or query
+	referer = refererURL.Scheme + "://" + refererURL.Host
 
 	for _, trustedOrigin := range trustedOrigins {
 		if referer == trustedOrigin {
